@@ -32,6 +32,9 @@ def parse_mutant(path):
             meta["expect"].append(line.split(":", 1)[1].strip())
         elif line.startswith("# what:"):
             meta["what"] = line.split(":", 1)[1].strip()
+        elif line.startswith("# neutral"):
+            # a behaviour-preserving variant: the property still holds, every rule must stay quiet (and must still decide)
+            meta["neutral"] = True
         elif not line.startswith("#"):
             break
     return meta
@@ -78,6 +81,12 @@ def run_one(meta, pid=None):
             keys, errs = violations_on(scratch, pid)
         except extract.CannotAnalyse as e:
             return {"mutant": meta["name"], "status": "skipped", "reason": "mutant does not compile: " + str(e)[-400:]}
+        if meta.get("neutral"):
+            known, _ = core.load_known()
+            keys = [k for k in keys if (pid, k) not in known]
+            if not keys and not errs:
+                return {"mutant": meta["name"], "status": "quiet"}
+            return {"mutant": meta["name"], "status": "false-alarm", "got": keys[:10], "errors": errs[:4]}
         hit = [e for e in meta["expect"] if any(k.startswith(e) for k in keys)]
         if len(hit) == len(meta["expect"]) and meta["expect"]:
             return {"mutant": meta["name"], "status": "detected", "keys": [k for k in keys if any(k.startswith(e) for e in meta["expect"])][:4]}
@@ -102,7 +111,7 @@ if __name__ == "__main__":
         for pid in sorted(props.PROPS):
             for r in run(pid):
                 print(pid, r)
-                if r["status"] != "detected":
+                if r["status"] not in ("detected", "quiet"):
                     bad += 1
         sys.exit(1 if bad else 0)
     m = parse_mutant(sys.argv[1])
